@@ -3,6 +3,7 @@ import Rdpgw.Oracle.Policy
 import Rdpgw.Oracle.Rdp
 import Rdpgw.Oracle.Ntlm
 import Rdpgw.Oracle.Kdc
+import Rdpgw.Oracle.Download
 
 /-!
 # rdpgw_oracle — line-protocol driver for the executable models
@@ -39,6 +40,7 @@ def dispatch (line : String) : String :=
     | "clientaddr" => cmdClientAddr m
     | "cookie" => cmdCookie m
     | "ntlm" => cmdNtlm m
+    | "download" => cmdDownload m
     | "oidc-callback" => cmdOidcCallback m
     | "kdc-decode" => cmdKdcDecode m
     | "kdc-encode" => cmdKdcEncode m
